@@ -245,7 +245,8 @@ func effective(env []string, key string) (string, bool) {
 
 func harnessC17() {
 	hk, hv := vNondetStr("hostkey", "="), vNondetStr("hostval", "")
-	hostEnv = []string{hk + "=" + hv} // the host's own environment: one arbitrary variable
+	hk2, hv2 := vNondetStr("hostkey2", "="), vNondetStr("hostval2", "")
+	hostEnv = []string{hk + "=" + hv, hk2 + "=" + hv2} // the host's own environment: two arbitrary adjacent variables
 	autoMTLS := vChoice(2) == 1
 	mux := vChoice(2) == 1
 	skip := vChoice(2) == 1
@@ -283,6 +284,9 @@ func harnessC17() {
 	if skip {
 		_, leaked := effective(got, hk)
 		vAssert(!leaked || hk == "K" || hk == "PLUGIN_MIN_PORT" || hk == "PLUGIN_MAX_PORT" || hk == "PLUGIN_PROTOCOL_VERSIONS" || hk == "PLUGIN_CLIENT_CERT" || hk == "PLUGIN_MULTIPLEX_GRPC" || hk == "PLUGIN_UNIX_SOCKET_DIR" || hk == "PLUGIN_UNIX_SOCKET_GROUP",
+			"C17: with SkipHostEnv no host variable is passed")
+		_, leaked2 := effective(got, hk2)
+		vAssert(!leaked2 || hk2 == "K" || hk2 == "PLUGIN_MIN_PORT" || hk2 == "PLUGIN_MAX_PORT" || hk2 == "PLUGIN_PROTOCOL_VERSIONS" || hk2 == "PLUGIN_CLIENT_CERT" || hk2 == "PLUGIN_MULTIPLEX_GRPC" || hk2 == "PLUGIN_UNIX_SOCKET_DIR" || hk2 == "PLUGIN_UNIX_SOCKET_GROUP",
 			"C17: with SkipHostEnv no host variable is passed")
 	}
 	vDone()
